@@ -76,7 +76,7 @@ def instrument(ctx, files):
 
 
 FIELDS = {"t", "seq", "e", "k", "n", "mode", "due", "close", "retry", "par", "hdr", "panic", "pid", "p", "ent", "m", "now", "res", "next",
-          "ndue", "pending", "broken", "hung", "g", "att", "rd", "scale"}
+          "ndue", "pending", "broken", "hung", "g", "att", "rd", "scale", "snum", "sden"}
 
 
 def project(e):
@@ -84,7 +84,7 @@ def project(e):
     return {k: v for k, v in e.items() if k in FIELDS}
 
 
-def validate_parallel(ctx, module, events, cfg_text, batch=150, par=6, timeout=1500):
+def validate_parallel(ctx, module, events, cfg_text, batch=150, par=6, timeout=1500, tag=""):
     """ctx.validate on chunks of `batch` traces, `par` TLC processes at a time"""
     from concurrent.futures import ThreadPoolExecutor
     by_t = {}
@@ -96,7 +96,7 @@ def validate_parallel(ctx, module, events, cfg_text, batch=150, par=6, timeout=1
     def one(i):
         evs = [e for t in chunks[i] for e in by_t[t]]
         v, _ = ctx.validate(module, None, evs, cfg_text=cfg_text, batch=batch, timeout=timeout,
-                            name="%s-p%d" % (module, i))
+                            name="%s-p%s%d" % (module, tag, i))
         return v
     verdicts = {}
     with ThreadPoolExecutor(max_workers=par) as ex:
@@ -147,17 +147,21 @@ RESIDUE = ("metanew", "metanew_torn", "metanew_empty", "foreign", "rm_partial", 
 
 
 def scen(mode, due, close, retry, par=1, maxtime=1, hdr=(), panic=(), pid=0, downtime=0,
-         left=(), restarts=1, retry2=(), rscale=1):
+         left=(), restarts=1, retry2=(), rscale=1, rdmul=1, failupto=2):
     # queue mode with shutdown: the process is started again on the same spool directory afterwards
     # left: residue of dead incarnations / operators found in the spool directory at every start (harness/twcheck/
     # residue_test.go); restarts: how often it is shut down and started again; retry2: messages whose second
-    # attempt fails as well; rscale: retry_time_scale
+    # attempt fails as well; rscale: retry_time_scale, an integer or a rational (num, den); rdmul: initial_retry_time
+    # in model units (a multiple of den^(failupto-1), so that no delay of the documented formula is a fraction of
+    # a tick); failupto: attempts 2..failupto of the retry2 messages fail
+    num, den = rscale if isinstance(rscale, tuple) else (rscale, 1)
     restart = mode == "queue" and close
     return {"mode": mode, "due": {p: d * SCALE for p, d in due.items()}, "close": close, "retry": list(retry),
-            "par": par, "maxTime": maxtime * SCALE, "retryDelay": SCALE, "hdr": list(hdr),
+            "par": par, "maxTime": maxtime * SCALE, "retryDelay": SCALE * rdmul, "hdr": list(hdr),
             "panic": list(panic), "pid": pid * SCALE, "downtime": downtime * SCALE,
             "restart": restart, "left": list(left) if restart else [], "restarts": restarts if restart else 0,
-            "retry2": list(retry2) if restart else [], "scale": rscale}
+            "retry2": list(retry2) if restart else [], "scale": num // den, "snum": num, "sden": den,
+            "failUpTo": failupto}
 
 
 def directed(thorough):
@@ -218,6 +222,30 @@ def directed(thorough):
                           rscale=2, pid=li % 2)
                 sched = ["p1"] + ["clock"] * nclk + (["p1"] + run_all) * 10 + extra + (["closer"] + run_all) * 10
                 out.append({"cfg": sc, "pol": "list", "sched": sched, "src": "residue-restart"})
+    # fractional-scale-restart: retry_time_scale with a fractional part (3/2; the default 5/4), every attempt up to
+    # the failupto-th fails temporarily and the process is shut down and started again between each attempt and
+    # its retry.  The retry time is not stored, only LastAttempt and TriesCount are: the time the running queue
+    # handed to its wheel (WheelAdd, read from the real wheel) is what the restarted one must respect.
+    fr = [((3, 2), 1, 2, 2, 0, 0), ((3, 2), 2, 3, 3, 0, 0), ((5, 4), 2, 2, 2, 1, 0), ((3, 2), 1, 2, 2, 0, 1)]
+    if thorough:
+        fr += [((5, 2), 2, 3, 3, 0, 0), ((5, 4), 8, 4, 4, 0, 0), ((3, 2), 2, 3, 3, 1, 1), ((7, 4), 2, 2, 3, 0, 0),
+               ((3, 2), 2, 3, 2, 0, 0)]
+    for (rs, rdmul, fail, restarts, down, pid) in fr:
+        for due in ({"p1": 0}, {"p1": 0, "p2": 0}):
+            if not thorough and len(due) == 2 and (rdmul > 1 or pid):
+                continue
+            # (a) first attempt before the first shutdown
+            sc = scen("queue", due, True, list(due), par=2, maxtime=2, restarts=restarts, retry2=list(due)[:1],
+                      rscale=rs, rdmul=rdmul, failupto=fail, downtime=down, pid=pid)
+            sched = (list(due) + run_all) * 10 + (["closer"] + run_all) * 10
+            out.append({"cfg": sc, "pol": "list", "sched": sched, "src": "fractional-scale-restart"})
+            # (b) nothing attempted before the first shutdown (Commit after Close)
+            if thorough or rdmul == 1:
+                sc = scen("queue", due, True, list(due), par=2, maxtime=2, restarts=restarts, retry2=list(due),
+                          rscale=rs, rdmul=rdmul, failupto=fail, downtime=down, pid=pid,
+                          left=("metanew",) if pid else ())
+                sched = ["p1"] + (["p2"] * 6 if "p2" in due else []) + (["closer"] + run_all) * 10 + ["p1"] * 6
+                out.append({"cfg": sc, "pol": "list", "sched": sched, "src": "fractional-scale-restart"})
     for extra in ([], ["p2"] * 6):
         due = {"p1": 0, "p2": 0} if extra else {"p1": 0}
         sc = scen("queue", due, True, ["p1"], maxtime=3, hdr=["p1"])
@@ -391,10 +419,16 @@ def run(ctx, replay):
             events = events + c1 + c2
             selftest = {900001: "corrupt-field", 900002: "drop-event"}
 
-    tcfg = cfg(4, (0,), ((),), ("TRUE",), (1,), 1, devs=dev_names, spec="TSpec", rd=SCALE,
-               tail="CHECK_DEADLOCK FALSE\nPOSTCONDITION Post\n")
-    verdicts = validate_parallel(ctx, "TimeWheelTrace", [project(e) for e in events], tcfg, batch=150,
-                                 par=8 if thorough else 6)
+    # the design's RetryDelay is a constant of the model: traces are validated in groups of equal initial retry
+    # time (Cfg.rd), each against the design instantiated with it
+    rd_of = {e["t"]: e.get("rd", SCALE) for e in events if e["e"] == "Cfg"}
+    verdicts = {}
+    for rd in sorted(set(rd_of.values())):
+        tcfg = cfg(4, (0,), ((),), ("TRUE",), (1,), 1, devs=dev_names, spec="TSpec", rd=rd,
+                   tail="CHECK_DEADLOCK FALSE\nPOSTCONDITION Post\n")
+        verdicts.update(validate_parallel(ctx, "TimeWheelTrace", [project(e) for e in events if rd_of.get(e["t"]) == rd],
+                                          tcfg, batch=150, par=8 if thorough else 6,
+                                          tag="" if rd == SCALE else "rd%d-" % rd))
     by_t = {}
     for e in events:
         by_t.setdefault(e["t"], []).append(e)
